@@ -34,7 +34,7 @@ func main() {
 			"nodes are harness components built with modeling.NewBuilder / NewEventDrivenBuilder that rely only on the library's notifications for wake-ups",
 		},
 		Plan: func(tier string, seed int64) []kit.Batch {
-			nb, n := 16, 60
+			nb, n := 16, 100
 			if tier == "thorough" {
 				nb, n = 32, 3000
 			}
@@ -323,7 +323,7 @@ func judge(c *kit.Case, r *kit.R, w *world.World) {
 			"msg": fmt.Sprintf("queue empty at t=%d but %s holds %d outgoing message(s); head id %d for %s which can accept it; connection X%d last ticked at t=%d (delivered %d), last wake request (%s) on one of its ports at t=%d",
 				uint64(w.Engine.CurrentTime()), pi.Port.Name(), pi.Port.NumOutgoing(), head.Meta().ID, head.Meta().Dst,
 				pi.Conn, s.lastTickT, s.delivered, s.lastReqKind, s.lastReqT),
-			"tail_of_log": tail(w, 40), "config": cfg})
+			"log_of_the_instant_of_the_last_tick": instant(w, s.lastTickT, 80), "config": cfg})
 	}
 	for _, n := range w.Nodes {
 		for _, pi := range n.Ports {
@@ -342,9 +342,11 @@ func judge(c *kit.Case, r *kit.R, w *world.World) {
 					uint64(w.Engine.CurrentTime()), n.Cfg.Kind, n.Name, pi.Port.NumIncoming(), pi.Port.Name(), pk.Flow),
 				"tail_of_log": tail(w, 40), "config": cfg})
 		}
-		if !violated && n.PendingInjections() > 0 {
-			// not part of the statement (an injection is not a message in a port): a harness self-check
-			c.Failf("harness-c09/injection-never-sent", "node %s still has %d injections", n.Name, n.PendingInjections())
+		if !violated && n.PendingInjections() > 0 && n.HeadInjectionSendable() {
+			// Not one of the two conditions of the statement (an injection is not yet a
+			// message in a port) but the same failure: a source that was asked to
+			// tick / wake for a due injection and can send it was never activated again.
+			c.Failf("c09/aux/due-injection-never-sent", "node %s still has %d due injections and its port can send", n.Name, n.PendingInjections())
 			violated = true
 		}
 	}
@@ -413,16 +415,40 @@ func portSlot(w *world.World, pi *world.PortInfo) int {
 	panic("port not found")
 }
 
+// instant returns the log lines of one instant (at most n).
+func instant(w *world.World, t uint64, n int) []string {
+	lo, hi := -1, -1
+	for i, e := range w.Log {
+		if e.T == t {
+			if lo < 0 {
+				lo = i
+			}
+			hi = i
+		}
+	}
+	if lo < 0 {
+		return nil
+	}
+	if hi-lo+1 > n {
+		lo = hi + 1 - n
+	}
+	return render(w, w.Log[lo:hi+1])
+}
+
 func tail(w *world.World, n int) []string {
-	names := map[world.Kind]string{world.EvTick: "tick", world.EvTickEnd: "tick-end", world.EvWake: "wake", world.EvStep: "step",
-		world.EvSend: "send", world.EvRecvd: "recvd", world.EvRetrIn: "retr-in", world.EvRetrOut: "retr-out",
-		world.EvNotifyRecv: "notify-recv", world.EvNotifyFree: "notify-free", world.EvKick: "kick", world.EvConsume: "consume"}
 	lo := len(w.Log) - n
 	if lo < 0 {
 		lo = 0
 	}
+	return render(w, w.Log[lo:])
+}
+
+func render(w *world.World, evs []world.Ev) []string {
+	names := map[world.Kind]string{world.EvTick: "tick", world.EvTickEnd: "tick-end", world.EvWake: "wake", world.EvStep: "step",
+		world.EvSend: "send", world.EvRecvd: "recvd", world.EvRetrIn: "retr-in", world.EvRetrOut: "retr-out",
+		world.EvNotifyRecv: "notify-recv", world.EvNotifyFree: "notify-free", world.EvKick: "kick", world.EvConsume: "consume"}
 	var out []string
-	for _, e := range w.Log[lo:] {
+	for _, e := range evs {
 		s := fmt.Sprintf("#%d t=%d %s", e.Seq, e.T, names[e.K])
 		if e.H >= 0 {
 			s += " " + w.HandlerName(e.H)
